@@ -11,7 +11,7 @@ RULE = ("Hypothesis draws size_in/size_out (1-4 modes, sizes 1-5, independent li
         "checker's contraction of the layer's cores (size_out x size_in); output shape; parameter registration; "
         "autograd gradients of a random linear functional w.r.t. every core and the bias equal those of the dense map "
         "and (float64) central finite differences. Non-trivial: >=2 modes, size_in != size_out, >=1 batch dim.")
-BUDGET = {"quick": 5000, "thorough": 80000}
+BUDGET = {"quick": 5000, "thorough": 480000}
 FLOORS = {"quick": {"batch:0": 300, "batch:3": 300, "init:Glo": 1000, "dt:f32": 1000, "rectangular": 2000, "fd_checked": 500}}
 ASSUMPTIONS = ["torch.manual_seed(lib_seed) pins the layer initialisation"]
 
